@@ -20,6 +20,7 @@ License: 3-clause BSD. (See the COPYRIGHT file)
 from __future__ import annotations
 
 import json
+from math import isfinite
 from struct import error as struct_error, unpack
 from typing import TYPE_CHECKING, Any, Callable, ClassVar, Protocol
 
@@ -290,6 +291,11 @@ def jsonable(content: Any) -> Any:
     """
     if isinstance(content, (bytes, bytearray, memoryview)):
         return bytes(content).hex()
+    if isinstance(content, float) and not isfinite(content):
+        # the bandwidth TLVs are IEEE floats the peer chose: json.dumps writes infinity and NaN as
+        # the bare tokens Infinity and NaN, which are not JSON (RFC 8259 section 6) and make every
+        # parser but Python's refuse the whole line. As text ('inf', '-inf', 'nan') they stay visible.
+        return str(content)
     if isinstance(content, dict):
         return {str(jsonable(key)): jsonable(value) for key, value in content.items()}
     if isinstance(content, (list, tuple)):
